@@ -540,6 +540,10 @@ fn c19_array_eq_elementwise_len2() {
     assert!(!(vx == Variable::Int(a0)));
     std::mem::forget((vx, vy, vz, kx, ky, kz));
 }
+// (no harness for "an array/tuple holding NaN is unequal to itself when both operands are the SAME allocation":
+//  under Kani's pinned nightly std `Arc<[T]> ==` short-circuits on pointer identity for T: Eq
+//  (`impl<T: ?Sized + Eq> MarkerEq for T`), under the repository's stable toolchain it does not, so the
+//  harness fails in K but does not replay on the real build — observation D6 in DESIGN; probes cover it)
 #[kani::proof]
 #[kani::unwind(4)]
 #[kani::stub(crate::variable::Variable::string, stub_string)]
